@@ -206,8 +206,9 @@ where
     isMatKind (st.kind t) && isMatKind (st.kind s) && st.kind t != .dg && st.kind s != .dg &&
     i < (st.rd t).rows && j < (st.rd s).rows && (st.rd t).cols == (st.rd s).cols &&
     vecPairOk op (rowKind (st.kind t)) (rowKind (st.kind s)) (st.rd t).cols
+  -- `t == s` is executed as well: the object is its own argument (`A += A`, `A = A`, `A.leftmultiply(A)`, ...)
   pair (op : OpK) (t s : Nat) : Bool :=
-    t < st.size && s < st.size && t != s &&
+    t < st.size && s < st.size &&
     st.lrows t == st.lrows s && (st.rd t).cols == (st.rd s).cols &&
     ((isVecKind (st.kind t) && isVecKind (st.kind s) && op != .lmul && op != .rmul &&
         vecPairOk op (st.kind t) (st.kind s) (st.rd t).cols) ||
